@@ -16,7 +16,30 @@ import (
 
 const lockSort = "(Array Int Int)"
 
+// execCall runs a call and then records, for callees whose last result is an error, that result in the ghost
+// %lasterr_<name> (read by the spec function callok(Name)).
 func (fr *Frame) execCall(st *State, c *ssa.CallCommon, in ssa.Instruction, pos token.Pos) []Val {
+	rs := fr.execCall0(st, c, in, pos)
+	res := c.Signature().Results()
+	if n := res.Len(); n > 0 && len(rs) == n && !st.dead && fr.parent == nil {
+		if nt, ok := res.At(n - 1).Type().(*types.Named); ok && nt.Obj().Pkg() == nil && nt.Obj().Name() == "error" {
+			if name := calleeName(c); name != "" {
+				u := fr.u
+				cn := "%lasterr_" + sanitize(name)
+				if _, ok := u.heapSort[cn]; !ok {
+					u.heapSort[cn] = u.sortOf(nt)
+				}
+				st.heap[cn] = rs[n-1].T
+				for _, s := range u.sinks {
+					s[cn] = true
+				}
+			}
+		}
+	}
+	return rs
+}
+
+func (fr *Frame) execCall0(st *State, c *ssa.CallCommon, in ssa.Instruction, pos token.Pos) []Val {
 	u := fr.u
 	var args []Val
 	for _, a := range c.Args {
@@ -1981,10 +2004,18 @@ func initHeapModels() {
 		na := u.fresh("delfunc_arr", "(Array Int "+es+")")
 		u.assume(st, and(sx("<=", "0", n), sx("<=", n, sx("s_len", s.T))))
 		newAt := func(i string) string { return sel(na, u.sidx(s.T, i)) }
-		// every kept element stays, every deleted one goes; relative order kept (stated as an order-preserving embedding)
-		u.assume(st, fmt.Sprintf("(forall ((j Int)) (=> (and (<= 0 j) (< j (s_len %s)) (not %s)) (exists ((i Int)) (and (<= 0 i) (< i %s) (= %s %s)))))", s.T, pOld, n, newAt("i"), oldAt("j")))
+		// every kept element stays, every deleted one goes; relative order kept. Stated with explicit witness functions that are
+		// inverse to each other (src: new position -> old position, dst: old position of a kept element -> new position), so
+		// that instantiating one direction does not create fresh positions for the other (no matching loop)
+		rT := sx("mkslice", sx("s_arr", s.T), sx("s_off", s.T), n, sx("s_cap", s.T))
+		src := u.fresh("delfunc_src", "(Array Int Int)")
+		dst := u.fresh("delfunc_dst", "(Array Int Int)")
 		pNew, _ := fr.closurePred(st, ci, Val{newAt("i"), slt.Elem(), ""})
-		u.assume(st, fmt.Sprintf("(forall ((i Int)) (=> (and (<= 0 i) (< i %s)) (and (not %s) (exists ((j Int)) (and (<= i j) (< j (s_len %s)) (= %s %s))))))", n, pNew, s.T, newAt("i"), oldAt("j")))
+		u.assume(st, fmt.Sprintf("(forall ((i Int)) (! (=> (and (<= 0 i) (< i %s)) (and (not %s) (<= i (select %s i)) (< (select %s i) (s_len %s)) (= %s %s) (= (select %s (select %s i)) i))) :pattern ((sidx %s i)) :pattern ((sidx %s i))))",
+			n, pNew, src, src, s.T, newAt("i"), oldAt("(select "+src+" i)"), dst, src, s.T, rT))
+		u.assume(st, fmt.Sprintf("(forall ((j Int)) (! (=> (and (<= 0 j) (< j (s_len %s)) (not %s)) (and (<= 0 (select %s j)) (< (select %s j) %s) (<= (select %s j) j) (= %s %s) (= (select %s (select %s j)) j) (= (sidx %s (select %s j)) (sidx %s (select %s j))))) :pattern ((sidx %s j))))",
+			s.T, pOld, dst, dst, n, dst, newAt("(select "+dst+" j)"), oldAt("j"), src, dst, rT, dst, s.T, dst, s.T))
+		u.assume(st, fmt.Sprintf("(forall ((i Int) (k Int)) (! (=> (and (<= 0 i) (< i k) (< k %s)) (< (select %s i) (select %s k))) :pattern ((select %s i) (select %s k))))", n, src, src, src, src))
 		u.assume(st, fmt.Sprintf("(=> (forall ((j Int)) (=> (and (<= 0 j) (< j (s_len %s))) (not %s))) (= %s (s_len %s)))", s.T, pOld, n, s.T))
 		u.hset(st, hn, hs, store(h, sx("s_arr", s.T), na))
 		if hi, ok := u.heapInfo[hn]; ok && !u.discovery {
@@ -1992,7 +2023,7 @@ func initHeapModels() {
 				u.assumeGlobal(fmt.Sprintf("(forall ((k Int)) (! %s :pattern ((select %s k))))", w, na))
 			}
 		}
-		r := u.define("delfunc", sSlice, sx("mkslice", sx("s_arr", s.T), sx("s_off", s.T), n, sx("s_cap", s.T)))
+		r := u.define("delfunc", sSlice, rT)
 		return []Val{{r, s.Ty, ""}}, true
 	}
 }
